@@ -309,6 +309,9 @@ func (fr *Frame) applySpecClosure(spec *FuncSpec, key string, sig *types.Signatu
 		} else {
 			fc.oblige(fr, "pre", key+":"+label, g, t, pos, cl.Text, fr.props())
 		}
+		if fr.trustsPreQuiet(key) {
+			continue // `trustpre quiet:` — the (trusted) precondition is not added to this function's context
+		}
 		fc.assume(g, t)
 	}
 	for i, cl := range spec.PanicsWhen {
@@ -502,6 +505,9 @@ func (fr *Frame) applySpecClosure(spec *FuncSpec, key string, sig *types.Signatu
 	for _, cl := range spec.Ensures {
 		if strings.HasPrefix(cl.Label, "local-") && !spec.Assume {
 			continue // `ensures [local-...]`: proved against the body, not re-assumed at call sites (keeps the callers' VCs small)
+		}
+		if fr.ignoresPost(key, cl.Label) {
+			continue // `ignorepost` clause of the function under verification
 		}
 		t, err := env.evalBool(cl.E)
 		if err != nil {
@@ -996,6 +1002,44 @@ func (fr *Frame) badgerRunModel(key string, c *ssa.CallCommon, st *State, g stri
 }
 
 // trustsPre: the root function's contract declares the preconditions of this callee as assumed (trustpre clause).
+// ignoresPost: the root function's contract drops this postcondition of the callee at its call sites (ignorepost clause).
+func (fr *Frame) ignoresPost(key, label string) bool {
+	root := fr
+	for root.callerFrame != nil {
+		root = root.callerFrame
+	}
+	if root.spec == nil || root.spec.IgnorePost == nil {
+		return false
+	}
+	for n, keep := range root.spec.IgnorePost {
+		if key == n || strings.HasSuffix(key, "."+n) || strings.HasSuffix(key, ")."+n) {
+			for _, k := range keep {
+				if k == label && label != "" {
+					return false
+				}
+			}
+			return true
+		}
+	}
+	return false
+}
+
+func (fr *Frame) trustsPreQuiet(key string) bool {
+	root := fr
+	for root.callerFrame != nil {
+		root = root.callerFrame
+	}
+	if root.spec == nil {
+		return false
+	}
+	for _, n := range root.spec.TrustPreQuiet {
+		if key == n || strings.HasSuffix(key, "."+n) || strings.HasSuffix(key, ")."+n) {
+			return true
+		}
+	}
+	return false
+}
+
 func (fr *Frame) trustsPre(key string) bool {
 	root := fr
 	for root.callerFrame != nil {
